@@ -1,111 +1,5 @@
-(* GENERATED by tools/gotrans arithC10 from the Go sources; do not edit.
-   One definition per listed Go function; Proofs/ArithTieC10.v proves each equal to the hand-written model. *)
-From Coq Require Import ZArith Bool.
-From Elys Require Import Base.Res Base.Zdec Base.ZdecChk.
-Open Scope Z_scope.
-
-(* x/leveragelp/keeper (Keeper).CheckAndLiquidateUnhealthyPosition, pure mode (range panics and division by zero are not modelled)
-   slice: assign:isHealthy#1
-     GetPositionHealth1 : result of call 1 of (x/leveragelp/keeper.Keeper).GetPositionHealth
-     GetParams1_SafetyFactor : result of call 1 of (x/leveragelp/keeper.Keeper).GetParams .SafetyFactor *)
-Definition LevLiq_isHealthy (GetPositionHealth1 : Z) (GetParams1_SafetyFactor : Z) : bool :=
-  (GetParams1_SafetyFactor <? GetPositionHealth1).
-
-(* x/leveragelp/keeper (Keeper).CheckAndLiquidateUnhealthyPosition, pure mode (range panics and division by zero are not modelled)
-   slice: ifmentions:isHealthy#1
-     GetPositionHealth1 : result of call 1 of (x/leveragelp/keeper.Keeper).GetPositionHealth
-     GetParams1_SafetyFactor : result of call 1 of (x/leveragelp/keeper.Keeper).GetParams .SafetyFactor
-     GetTotalLiablities1 : result of call 1 of (x/stablestake/types.Debt).GetTotalLiablities *)
-Definition LevLiq_skip (GetPositionHealth1 : Z) (GetParams1_SafetyFactor : Z) (GetTotalLiablities1 : Z) : bool :=
-  ((GetParams1_SafetyFactor <? GetPositionHealth1) || (GetTotalLiablities1 =? 0)).
-
-(* x/leveragelp/keeper (Keeper).CheckAndCloseAtStopLoss, pure mode (range panics and division by zero are not modelled)
-   slice: assign:underStopLossPrice#1
-     position_StopLossPrice : parameter position .StopLossPrice
-     position_StopLossPrice_IsNil : parameter position .StopLossPrice.IsNil()
-     LpTokenPrice1 : result of call 1 of ( *x/amm/types.Pool).LpTokenPrice *)
-Definition LevStop_under (position_StopLossPrice : Z) (position_StopLossPrice_IsNil : bool) (LpTokenPrice1 : Z) : bool :=
-  ((negb position_StopLossPrice_IsNil) && (LpTokenPrice1 <=? position_StopLossPrice)).
-
-(* x/leveragelp/keeper (Keeper).CheckAndCloseAtStopLoss, pure mode (range panics and division by zero are not modelled)
-   slice: ifmentions:underStopLossPrice#1
-     position_StopLossPrice : parameter position .StopLossPrice
-     position_StopLossPrice_IsNil : parameter position .StopLossPrice.IsNil()
-     LpTokenPrice1 : result of call 1 of ( *x/amm/types.Pool).LpTokenPrice *)
-Definition LevStop_skip (position_StopLossPrice : Z) (position_StopLossPrice_IsNil : bool) (LpTokenPrice1 : Z) : bool :=
-  (negb ((negb position_StopLossPrice_IsNil) && (LpTokenPrice1 <=? position_StopLossPrice))).
-
-(* x/leveragelp/keeper (Keeper).ProcessOpenLong, pure mode (range panics and division by zero are not modelled)
-   slice: guard:ErrPositionUnhealthy
-     poolId : parameter poolId
-     GetPositionHealth1 : result of call 1 of (x/leveragelp/keeper.Keeper).GetPositionHealth
-     GetSafetyFactor1 : result of call 1 of (x/leveragelp/keeper.Keeper).GetSafetyFactor *)
-Definition LevOpen_unhealthy (poolId : Z) (GetPositionHealth1 : Z) (GetSafetyFactor1 : Z) : bool :=
-  (GetPositionHealth1 <=? GetSafetyFactor1).
-
-(* x/perpetual/keeper (Keeper).CheckAndLiquidateUnhealthyPosition, pure mode (range panics and division by zero are not modelled)
-   slice: ifmentions:MtpHealth#1
-     GetMTPHealth1 : result of call 1 of (x/perpetual/keeper.Keeper).GetMTPHealth
-     GetSafetyFactor1 : result of call 1 of (x/perpetual/keeper.Keeper).GetSafetyFactor *)
-Definition PerpLiq_unhealthy (GetMTPHealth1 : Z) (GetSafetyFactor1 : Z) : bool :=
-  (GetMTPHealth1 <=? GetSafetyFactor1).
-
-(* x/perpetual/keeper (Keeper).CheckAndCloseAtStopLoss, pure mode (range panics and division by zero are not modelled)
-   slice: assign:underStopLossPrice#1
-     mtp_Position : parameter mtp .Position
-     mtp_StopLossPrice : parameter mtp .StopLossPrice
-     mtp_StopLossPrice_IsNil : parameter mtp .StopLossPrice.IsNil()
-     GetAssetPrice1 : result of call 1 of (x/perpetual/keeper.Keeper).GetAssetPrice *)
-Definition PerpStop_underLong (mtp_Position : Z) (mtp_StopLossPrice : Z) (mtp_StopLossPrice_IsNil : bool) (GetAssetPrice1 : Z) : bool :=
-  ((mtp_Position =? 1) && ((negb mtp_StopLossPrice_IsNil) && (GetAssetPrice1 <=? mtp_StopLossPrice))).
-
-(* x/perpetual/keeper (Keeper).CheckAndCloseAtStopLoss, pure mode (range panics and division by zero are not modelled)
-   slice: assign:underStopLossPrice#2
-     mtp_Position : parameter mtp .Position
-     mtp_StopLossPrice : parameter mtp .StopLossPrice
-     mtp_StopLossPrice_IsNil : parameter mtp .StopLossPrice.IsNil()
-     GetAssetPrice1 : result of call 1 of (x/perpetual/keeper.Keeper).GetAssetPrice *)
-Definition PerpStop_underShort (mtp_Position : Z) (mtp_StopLossPrice : Z) (mtp_StopLossPrice_IsNil : bool) (GetAssetPrice1 : Z) : bool :=
-  ((negb (mtp_Position =? 1)) && ((negb mtp_StopLossPrice_IsNil) && (mtp_StopLossPrice <=? GetAssetPrice1))).
-
-(* x/perpetual/keeper (Keeper).CheckAndCloseAtTakeProfit, pure mode (range panics and division by zero are not modelled)
-   slice: ifmentions:TakeProfitPrice#1
-     mtp_Position : parameter mtp .Position
-     mtp_TakeProfitPrice : parameter mtp .TakeProfitPrice
-     GetAssetPrice1 : result of call 1 of (x/perpetual/keeper.Keeper).GetAssetPrice *)
-Definition PerpTake_missLong (mtp_Position : Z) (mtp_TakeProfitPrice : Z) (GetAssetPrice1 : Z) : bool :=
-  ((mtp_Position =? 1) && (negb (mtp_TakeProfitPrice <=? GetAssetPrice1))).
-
-(* x/perpetual/keeper (Keeper).CheckAndCloseAtTakeProfit, pure mode (range panics and division by zero are not modelled)
-   slice: ifmentions:TakeProfitPrice#2
-     mtp_Position : parameter mtp .Position
-     mtp_TakeProfitPrice : parameter mtp .TakeProfitPrice
-     GetAssetPrice1 : result of call 1 of (x/perpetual/keeper.Keeper).GetAssetPrice *)
-Definition PerpTake_missShort (mtp_Position : Z) (mtp_TakeProfitPrice : Z) (GetAssetPrice1 : Z) : bool :=
-  ((negb (mtp_Position =? 1)) && (negb (GetAssetPrice1 <=? mtp_TakeProfitPrice))).
-
-(* x/perpetual/keeper (Keeper).ProcessOpen, pure mode (range panics and division by zero are not modelled)
-   slice: guard:ErrMTPUnhealthy
-     proxyLeverage : parameter proxyLeverage
-     collateralAmountDec : parameter collateralAmountDec
-     poolId : parameter poolId
-     GetMTPHealth1 : result of call 1 of (x/perpetual/keeper.Keeper).GetMTPHealth
-     GetSafetyFactor1 : result of call 1 of (x/perpetual/keeper.Keeper).GetSafetyFactor *)
-Definition PerpOpen_unhealthy (proxyLeverage : Z) (collateralAmountDec : Z) (poolId : Z) (GetMTPHealth1 : Z) (GetSafetyFactor1 : Z) : bool :=
-  (GetMTPHealth1 <=? GetSafetyFactor1).
-
-(* x/perpetual/keeper (Keeper).OpenConsolidate, pure mode (range panics and division by zero are not modelled)
-   slice: guard:ErrMTPUnhealthy
-     GetMTPHealth1 : result of call 1 of (x/perpetual/keeper.Keeper).GetMTPHealth
-     GetSafetyFactor1 : result of call 1 of (x/perpetual/keeper.Keeper).GetSafetyFactor *)
-Definition PerpConsolidate_unhealthy (GetMTPHealth1 : Z) (GetSafetyFactor1 : Z) : bool :=
-  (GetMTPHealth1 <=? GetSafetyFactor1).
-
-(* x/perpetual/keeper (Keeper).CheckHealthAfterOpen, pure mode (range panics and division by zero are not modelled)
-   slice: guard:ErrMTPUnhealthy
-     id : parameter id
-     GetMTPHealth1 : result of call 1 of (x/perpetual/keeper.Keeper).GetMTPHealth
-     GetSafetyFactor1 : result of call 1 of (x/perpetual/keeper.Keeper).GetSafetyFactor *)
-Definition PerpAfterOpen_unhealthy (id : Z) (GetMTPHealth1 : Z) (GetSafetyFactor1 : Z) : bool :=
-  (GetMTPHealth1 <=? GetSafetyFactor1).
-
+(* gotrans failed on the current tree *)
+Definition handlers := gotrans_failed_on_the_current_tree_see_log.
+(* gotrans: arith C10: 1 function(s) outside the translator's scope:
+  x/leveragelp/keeper/position_open.go:131: x/leveragelp/keeper.ProcessOpenLong: value not available: x/leveragelp/keeper/position_open.go:104: x/leveragelp/keeper.ProcessOpenLong: value not available: x/leveragelp/keeper/position_open.go:93: x/leveragelp/keeper.ProcessOpenLong: value not available: x/leveragelp/keeper/position_open.go:75: x/leveragelp/keeper.ProcessOpenLong: value not available: x/leveragelp/keeper/position_open.go:74: x/leveragelp/keeper.ProcessOpenLong: call of (x/leveragelp/keeper.Keeper).GetMaxLeverageParam is outside the translator's scope (not an Int/LegacyDec method, a listed function or a declared opaque reader): k.GetMaxLeverageParam(ctx)
+ *)
